@@ -1,12 +1,18 @@
 """C17 - spatial re-ordering is a pure permutation of whole particles.
 
 For every neighbour algorithm that offers `get_spatially_ordered_indices`
-generated particle arrays (typed and strided properties, non-local tail,
-ghosts of a periodic domain) are re-ordered 1-3 times through
-NNPS.spatially_order_particles and Solver.reorder_particles.  Oracle: the
-index list is a permutation; the multiset of whole particle records (by uid)
-is unchanged; real particles stay ahead of ghost/remote ones; neighbour
-queries after the following update equal brute force.
+generated particle arrays (typed and strided properties, constants, a
+non-local tail, ghosts of a periodic domain; empty, single-particle,
+coincident and ghost-only arrays included) go through a drawn program of
+re-orderings (NNPS.spatially_order_particles for all arrays or for one,
+Solver.reorder_particles, Solver.solve with a reorder frequency and a
+stand-in integrator) interleaved with what happens between two re-orderings
+of a run: particles move, are added, removed (down to an empty array), change
+their h, get a new property.  Oracle: the index list is a permutation; the
+multiset of whole particle records (all properties of a particle together) is
+unchanged by a re-ordering; constants are untouched; real particles stay
+ahead of ghost/remote ones; neighbour queries after the following update
+equal brute force.
 """
 import math
 
@@ -15,62 +21,148 @@ from hypothesis import strategies as st
 from vlib.hyp import (Failure, Outcome, Stats, search, derive_seed, canon,
                       case_hash)
 
-RULE = ('case = (algorithm class with its knobs, dim 1-3, 1-2 arrays of '
-        '2-60 particles from uniform / clustered / lattice-on-cell-face / '
-        'collinear families with an optional far offset, per-particle h, '
-        'typed (double, float, int, long, unsigned) and strided properties, '
-        'a ghost/remote tail or ghosts of a periodic domain, 1-3 repeated '
-        're-orderings through spatially_order_particles or '
-        'Solver.reorder_particles). Non-trivial = an array with >= 2 '
-        'occupied cells and >= 1 strided property that actually got '
-        'permuted; distinct by case hash.')
+RULE = ('case = (algorithm class with its knobs, cache / sort_gids / thread '
+        'count, dim 1-3, 1-3 arrays of 0-40 particles from uniform / '
+        'clustered / lattice-on-cell-face / collinear / all-coincident '
+        'families with an optional far offset, per-particle h (ratios up to '
+        '8), typed (double, float, int, long, unsigned) and strided '
+        'properties, constants (one as long as the array), a ghost/remote '
+        'tail (up to the whole array) or ghosts of a periodic domain, a '
+        'program of 1-6 operations: re-order all arrays / one array through '
+        'spatially_order_particles (fresh or re-used index array, drawn '
+        'neighbour context left behind), Solver.reorder_particles, '
+        'Solver.solve '
+        'with reorder_freq and a moving stand-in integrator; between them '
+        'move, add, remove (also all), scale h, add a property, each '
+        'followed by update_domain + update).  Non-trivial = a re-ordering '
+        'that actually permuted an array carrying strided properties; '
+        'distinct by case hash.')
 ASSUMPTIONS = [
     'classes without get_spatially_ordered_indices (BoxSort variants built '
     'on dicts, hashes) raise NotImplementedError: a clean rejection',
-    'neighbour oracle: required if d2 < c2(1-8eps), forbidden if '
-    'd2 > c2(1+8eps)',
+    'neighbour oracle: required if d2 < c2(1-1e-12), forbidden if '
+    'd2 > c2(1+1e-12)',
     'input classes on which C01 records an open finding for the class are '
     'skipped by construction and counted',
+    'after particles were added, removed, moved or had h changed the caller '
+    'runs update_domain() and update() before asking for an ordering (what '
+    'the integrators do); an ordering asked for on a stale structure is '
+    'not generated',
+    'a property added to an array after a periodic domain manager created '
+    'its ghost buffers is not generated (C07 territory)',
+    'idempotence of re-ordering is not documented and not asserted',
 ]
-ESSENTIAL_LABELS = {'all': ['nonlocal_tail', 'periodic_ghosts', 'strided',
-                            'via_solver', 'repeat', 'two_arrays',
-                            'permuted']}
+ESSENTIAL_LABELS = {'all': [
+    'nonlocal_tail', 'periodic_ghosts', 'strided', 'via_solver', 'repeat',
+    'two_arrays', 'permuted',
+    # coverage audit
+    'three_arrays', 'empty_array', 'all_empty', 'single_particle',
+    'ghost_only_array', 'coincident', 'h_ratio_ge4', 'cache', 'sort_gids',
+    'threads:1', 'threads:2', 'periodic_remote_tail', 'reorder_one_array',
+    'reorder_after:move', 'reorder_after:add', 'reorder_after:remove',
+    'reorder_after:hscale', 'reorder_after:lateprop', 'array_emptied',
+    'array_grown', 'array_shrunk', 'permuted_later_round', 'solve',
+    'solve_permuted', 'solve_periodic', 'const_len_n', 'reused_index_array',
+    'context_not_last_array']}
 CLASSES = ['LinkedListNNPS', 'BoxSortNNPS', 'CellIndexingNNPS', 'ZOrderNNPS',
            'ExtendedZOrderNNPS', 'StratifiedSFCNNPS', 'OctreeNNPS',
            'CompressedOctreeNNPS']
+TREES = ('OctreeNNPS', 'CompressedOctreeNNPS')
+
+
+# ------------------------------------------------------------- strategies
+@st.composite
+def array_strategy(draw, dim, L, h0, allow_tail, periodic=False):
+    fam = draw(st.sampled_from(['uniform', 'uniform', 'clustered', 'lattice',
+                                'collinear', 'coincident']))
+    nk = draw(st.sampled_from(['n'] * 9 + ['0', '1', '2']))
+    n = draw(st.integers(3, 40)) if nk == 'n' else int(nk)
+    pts = []
+    cpt = [draw(st.integers(0, 255)) / 256.0 * L for _ in range(dim)]
+
+    def ints(lo, hi, m):
+        return draw(st.lists(st.integers(lo, hi), min_size=m, max_size=m))
+    if fam == 'uniform':
+        raw = ints(0, 255 if periodic else 256, n * dim)
+    elif fam == 'clustered':
+        raw = ints(-8, 8, n * dim)
+    elif fam == 'lattice':
+        raw = ints(0, 6, n * dim)
+    elif fam == 'collinear':
+        raw = ints(0, 64 - periodic, n)
+    for i in range(n):
+        if fam == 'uniform':
+            p = [v / 256.0 * L for v in raw[i * dim:(i + 1) * dim]]
+        elif fam == 'clustered':
+            c = 0.3 * L
+            p = [c + v / 64.0 * h0 for v in raw[i * dim:(i + 1) * dim]]
+        elif fam == 'lattice':
+            p = [v * 2.0 * h0 for v in raw[i * dim:(i + 1) * dim]]
+            if periodic:
+                # stay inside the periodic box
+                p = [c if c < L else c - L * math.floor(c / L) for c in p]
+        elif fam == 'coincident':
+            p = list(cpt)
+        else:
+            p = [raw[i] / 64.0 * L] + [0.25 * L] * (dim - 1)
+        pts.append(p + [0.0] * (3 - dim))
+    if n >= 3 and fam != 'coincident' and draw(st.integers(0, 3)) > 0:
+        # most sets span the box
+        pts[0] = [0.0] * 3
+        pts[1] = [0.9 * L if a < dim else 0.0 for a in range(3)]
+    if allow_tail and n:
+        ntail = draw(st.sampled_from([0, 0, 0, 1, 1, 2, 2, 3, 4, n]))
+        ntail = min(ntail, max(n - 2, 1) if ntail != n else n)
+    else:
+        ntail = 0
+    # ghosts are owned by a periodic domain manager (it deletes every
+    # particle tagged ghost): only remote ones may be handed in there
+    tail_tag = 1 if periodic else draw(st.sampled_from([1, 2]))
+    hset = draw(st.sampled_from([[0.8, 1.0, 1.0, 1.3], [0.8, 1.0, 1.0, 1.3],
+                                 [1.0], [0.5, 1.0, 2.0, 4.0]]))
+    return dict(
+        family=fam, n=n, pts=pts, ntail=ntail, tail_tag=tail_tag,
+        h=[h0 * hset[v] for v in ints(0, len(hset) - 1, n)],
+        f=[v / 8.0 for v in ints(-99, 99, n)],
+        s3=[v / 4.0 for v in ints(-99, 99, 3 * n)],
+        i2=ints(-50, 50, 2 * n))
 
 
 @st.composite
-def array_strategy(draw, dim, L, h0, allow_tail):
-    fam = draw(st.sampled_from(['uniform', 'uniform', 'clustered', 'lattice',
-                                'collinear']))
-    n = draw(st.integers(3, 40))
-    pts = []
-    for i in range(n):
-        if fam == 'uniform':
-            p = [draw(st.integers(0, 256)) / 256.0 * L for _ in range(dim)]
-        elif fam == 'clustered':
-            c = 0.3 * L
-            p = [c + draw(st.integers(-8, 8)) / 64.0 * h0
-                 for _ in range(dim)]
-        elif fam == 'lattice':
-            p = [draw(st.integers(0, 6)) * 2.0 * h0 for _ in range(dim)]
-        else:
-            t = draw(st.integers(0, 64)) / 64.0 * L
-            p = [t] + [0.25 * L] * (dim - 1)
-        pts.append(p + [0.0] * (3 - dim))
-    # make sure the set has a non-zero extent
-    pts[0] = [0.0] * 3
-    pts[1] = [0.9 * L if a < dim else 0.0 for a in range(3)]
-    ntail = draw(st.integers(0, min(4, n - 2))) if allow_tail else 0
-    tail_tag = draw(st.sampled_from([1, 2]))
-    return dict(
-        family=fam, n=n, pts=pts, ntail=ntail, tail_tag=tail_tag,
-        h=[h0 * draw(st.sampled_from([0.8, 1.0, 1.0, 1.3]))
-           for _ in range(n)],
-        f=[draw(st.integers(-99, 99)) / 8.0 for _ in range(n)],
-        s3=[draw(st.integers(-99, 99)) / 4.0 for _ in range(3 * n)],
-        i2=[draw(st.integers(-50, 50)) for _ in range(2 * n)])
+def op_strategy(draw, dim, narr, periodic, kinds):
+    kind = draw(st.sampled_from(kinds))
+    k = draw(st.integers(0, narr - 1))
+    if kind == 'reorder':
+        via = draw(st.sampled_from(['nnps', 'nnps', 'solver', 'one']))
+        # the neighbour context left behind by whoever queried last
+        ctx = [draw(st.integers(0, narr - 1)), draw(st.integers(0, narr - 1))]
+        return dict(op='reorder', via=via, k=k, ctx=ctx,
+                    reuse_idx=draw(st.booleans()))
+    if kind == 'move':
+        return dict(op='move', amp=draw(st.sampled_from([0.25, 1.0, 3.0])),
+                    p=draw(st.integers(1, 16)), q=draw(st.integers(0, 16)))
+    if kind == 'add':
+        m = draw(st.sampled_from([1, 2, 5, 9, 17]))
+        pts = [[draw(st.integers(0, 255)) for _ in range(dim)]
+               for _ in range(m)]
+        return dict(op='add', k=k, pts=pts,
+                    hfac=draw(st.sampled_from([1.0, 1.0, 0.8, 1.3])),
+                    ntail=0 if periodic else draw(
+                        st.sampled_from([0, 0, 1, m])),
+                    tail_tag=1 if periodic else draw(
+                        st.sampled_from([1, 2])))
+    if kind == 'remove':
+        sel = draw(st.one_of(
+            st.just('all'),
+            st.lists(st.integers(0, 63), min_size=1, max_size=12),
+            st.lists(st.integers(0, 63), min_size=1, max_size=12)))
+        return dict(op='remove', k=k, sel=sel)
+    if kind == 'hscale':
+        return dict(op='hscale', k=k,
+                    fac=draw(st.sampled_from([0.7, 1.25, 1.5])))
+    if kind == 'lateprop':
+        return dict(op='lateprop', k=k)
+    raise ValueError(kind)
 
 
 @st.composite
@@ -79,56 +171,103 @@ def case_strategy(draw, cls, skip_multi=()):
     L = draw(st.sampled_from([1.0, 2.0, 4.0]))
     h0 = L * draw(st.sampled_from([0.08, 0.12, 0.2]))
     periodic = draw(st.integers(0, 3)) == 0
-    narr = draw(st.sampled_from([1, 1, 2]))
+    narr = draw(st.sampled_from([1, 1, 2, 2, 3]))
     if cls in skip_multi:
         # open C01 finding: this class loses neighbours between different
         # arrays whatever the order of the particles; skipped by
         # construction
         narr = 1
-    arrays = [draw(array_strategy(dim, L, h0, not periodic))
+    arrays = [draw(array_strategy(dim, L, h0, True, periodic))
               for _ in range(narr)]
     offset = draw(st.sampled_from([0.0, 0.0, 1000.0, -1000.0]))
     if periodic:
         offset = 0.0
     knobs = {}
-    if cls in ('OctreeNNPS', 'CompressedOctreeNNPS'):
+    if cls in TREES:
         knobs['leaf_max_particles'] = draw(st.sampled_from([4, 10, 32]))
+        knobs['test_parallel'] = draw(st.booleans())
     if cls == 'ExtendedZOrderNNPS':
         knobs['H'] = draw(st.sampled_from([1, 2, 3]))
     if cls == 'StratifiedSFCNNPS':
         knobs['num_levels'] = draw(st.sampled_from([1, 2, 3]))
-    return dict(cls=cls, dim=dim, L=L, periodic=periodic, arrays=arrays,
-                offset=offset, knobs=knobs, radius_scale=2.0,
-                rounds=draw(st.integers(1, 3)),
-                via_solver=draw(st.booleans()),
+    opts = dict(cache=draw(st.integers(0, 2)) == 0,
+                sort_gids=draw(st.integers(0, 3)) == 0)
+    threads = draw(st.sampled_from([1, 1, 2, 3]))
+    kinds = ['reorder', 'reorder', 'reorder', 'move', 'move', 'add',
+             'remove', 'hscale']
+    if not periodic:
+        kinds.append('lateprop')
+    prog = draw(st.lists(op_strategy(dim, narr, periodic, kinds),
+                         min_size=0, max_size=5))
+    tail = draw(st.sampled_from(['reorder', 'reorder', 'solve']))
+    if tail == 'reorder':
+        prog.append(draw(op_strategy(dim, narr, periodic, ['reorder'])))
+    else:
+        prog.append(dict(op='solve', freq=draw(st.sampled_from([1, 2, 3])),
+                         nsteps=draw(st.integers(1, 5)),
+                         amp=draw(st.sampled_from([0.25, 1.0, 3.0])),
+                         p=draw(st.integers(1, 16))))
+    return dict(cls=cls, dim=dim, L=L, h0=h0, periodic=periodic,
+                arrays=arrays, offset=offset, knobs=knobs,
+                radius_scale=2.0, opts=opts, threads=threads, consts=True,
+                prog=prog,
                 _klass=dict(cls=cls, dim=dim,
                             families=sorted(set(a['family']
                                                 for a in arrays))))
+
+
+# ------------------------------------------------------------------ build
+def derived(uid):
+    """Values of the uid-derived properties of particles with these uids."""
+    import numpy as np
+    uid = np.asarray(uid, dtype=np.int64)
+    n = len(uid)
+    l2 = np.empty((n, 2), dtype=np.int64)
+    l2[:, 0] = uid * 3 + 1
+    l2[:, 1] = -uid - 1
+    f2 = np.empty((n, 2), dtype=np.float32)
+    f2[:, 0] = uid * 0.5
+    f2[:, 1] = uid * 0.25 + 1.0
+    return dict(l2=l2.ravel(), f2=f2.ravel(),
+                u1=(uid + 7).astype(np.uint32))
 
 
 def build(case):
     import numpy as np
     from pysph.base.particle_array import ParticleArray
     from pysph.base import nnps as N
+    new = 'prog' in case
     pas = []
     uid0 = 0
     for k, a in enumerate(case['arrays']):
         n = a['n']
-        p = np.array(a['pts']) + np.array([case['offset']] * case['dim'] +
-                                          [0.0] * (3 - case['dim']))
+        p = np.array(a['pts'], dtype=float).reshape(n, 3) + np.array(
+            [case['offset']] * case['dim'] + [0.0] * (3 - case['dim']))
         pa = ParticleArray(name='a%d' % k, x=p[:, 0].copy(),
                            y=p[:, 1].copy(), z=p[:, 2].copy(),
-                           h=np.array(a['h']))
-        pa.add_property('uid', type='long',
-                        data=np.arange(uid0, uid0 + n))
+                           h=np.array(a['h'], dtype=float))
+        uid = np.arange(uid0, uid0 + n)
+        pa.add_property('uid', type='long', data=uid)
         uid0 += n
         pa.add_property('f', type='float', data=np.array(a['f'],
                                                          dtype=np.float32))
-        pa.add_property('s3', stride=3, data=np.array(a['s3']))
+        pa.add_property('s3', stride=3, data=np.array(a['s3'], dtype=float))
         pa.add_property('i2', type='int', stride=2,
                         data=np.array(a['i2'], dtype=np.int32))
-        pa.add_property('u1', type='unsigned int',
-                        data=np.arange(n, dtype=np.uint32) + 7)
+        if new:
+            d = derived(uid)
+            pa.add_property('u1', type='unsigned int', data=d['u1'])
+            pa.add_property('l2', type='long', stride=2, data=d['l2'])
+            pa.add_property('f2', type='float', stride=2, data=d['f2'])
+        else:
+            pa.add_property('u1', type='unsigned int',
+                            data=np.arange(n, dtype=np.uint32) + 7)
+        if case.get('consts'):
+            pa.add_constant('c3', [1.5, -2.5, 3.5 + k])
+            pa.add_constant('ci', np.array([7, 8], dtype=np.int32))
+            if n:
+                # as long as the array: must not be taken for a property
+                pa.add_constant('cn', np.arange(n, dtype=float) + 0.5)
         tag = np.zeros(n, dtype=np.int32)
         if a['ntail']:
             tag[n - a['ntail']:] = a['tail_tag']
@@ -147,27 +286,34 @@ def build(case):
             kw.update(zmin=0.0, zmax=L, periodic_in_z=True)
         domain = N.DomainManager(**kw)
     cls = getattr(N, case['cls'])
+    if case.get('threads'):
+        from pysph.base.nnps_base import set_number_of_threads
+        set_number_of_threads(int(case['threads']))
     nn = cls(dim=case['dim'], particles=pas,
              radius_scale=case['radius_scale'], domain=domain,
-             **case['knobs'])
-    return pas, nn
+             **dict(case['knobs'], **case.get('opts', {})))
+    return pas, nn, uid0
 
 
 def records(pa):
     import numpy as np
     n = pa.get_number_of_particles()
-    out = {}
     names = sorted(pa.properties.keys())
     cols = []
     for nm in names:
         a = pa.get_carray(nm).get_npy_array()
         s = pa.stride.get(nm, 1)
         cols.append(a.reshape(n, s) if n else a.reshape(0, s))
-    uid = pa.get_carray('uid').get_npy_array()
     recs = []
     for i in range(n):
         recs.append(tuple(c[i].tobytes() for c in cols))
     return names, recs
+
+
+def constants(pa):
+    return dict((nm, (str(c.get_npy_array().dtype),
+                      c.get_npy_array().tolist()))
+                for nm, c in pa.constants.items())
 
 
 def brute(pas, si, di, i, rs):
@@ -179,98 +325,81 @@ def brute(pas, si, di, i, rs):
     dh = d.get_carray('h').get_npy_array()[i]
     d2 = ((sx - dx) ** 2).sum(axis=1)
     c2 = (rs * np.maximum(sh, dh)) ** 2
-    eps = 8 * 2.3e-16
     req = set(np.nonzero(d2 < c2 * (1 - 1e-12))[0].tolist())
     forb = set(np.nonzero(d2 > c2 * (1 + 1e-12))[0].tolist())
     return req, forb
 
 
-def check(case):
-    import numpy as np
-    from cyarray.carray import LongArray, UIntArray
-    labels = []
-    kl = dict(cls=case['cls'], multi_array=len(case['arrays']) > 1)
-    fails = []
-    try:
-        pas, nn = build(case)
-    except RuntimeError as ex:
-        if 'too many cells' in str(ex):
-            return [], ['capacity_rejected'], False
-        return [Failure(case['cls'], 'construct_exception', repr(ex), kl)], \
-            labels, False
-    if len(pas) > 1:
-        labels.append('two_arrays')
-    if case['periodic']:
-        labels.append('periodic_ghosts')
-    if any(a['ntail'] for a in case['arrays']):
-        labels.append('nonlocal_tail')
-    labels.append('strided')
-    before = [sorted(records(pa)[1]) for pa in pas]
-    nreal0 = [pa.num_real_particles for pa in pas]
-    permuted = False
-    nontriv = False
-    solver = None
-    if case['via_solver']:
-        from pysph.solver.solver import Solver
-        solver = Solver(dim=case['dim'], integrator=None)
-        solver.particles = pas
-        solver.nnps = nn
-        labels.append('via_solver')
-    for rnd in range(case['rounds']):
-        if rnd:
-            labels.append('repeat')
-        if not case['via_solver']:
-            for k, pa in enumerate(pas):
-                n = pa.get_number_of_particles()
-                idx = LongArray()
-                try:
-                    nn.get_spatially_ordered_indices(k, idx)
-                except NotImplementedError:
-                    return [], labels + ['unsupported'], False
-                ind = idx.get_npy_array()[:idx.length].copy()
-                if sorted(ind.tolist()) != list(range(n)):
-                    fails.append(Failure(
-                        case['cls'], 'not_a_permutation',
-                        'array %d (%d particles): index list has %d '
-                        'entries, %d distinct, min %s max %s' % (
-                            k, n, len(ind), len(set(ind.tolist())),
-                            ind.min() if len(ind) else None,
-                            ind.max() if len(ind) else None), kl))
-                    return fails, labels, False
-                if not np.array_equal(ind, np.arange(n)):
-                    permuted = True
-                nn.spatially_order_particles(k)
-            nn.update()
-        else:
-            uid_before = [pa.get_carray('uid').get_npy_array().copy()
-                          for pa in pas]
-            try:
-                solver.reorder_particles()
-            except NotImplementedError:
-                return [], labels + ['unsupported'], False
-            for pa, ub in zip(pas, uid_before):
-                ua = pa.get_carray('uid').get_npy_array()
-                if len(ua) == len(ub) and not np.array_equal(ua, ub):
-                    permuted = True
-        for k, pa in enumerate(pas):
+class _Bail(Exception):
+    pass
+
+
+def disp(uid, axis, p, q):
+    """Deterministic displacement pattern in [-1, 1] from the uid."""
+    return ((uid * p + q + 7 * axis) % 17 - 8) / 8.0
+
+
+class Run(object):
+    """One case: the arrays, the neighbour structure and the oracle."""
+
+    def __init__(self, case):
+        self.case = case
+        self.labels = []
+        self.fails = []
+        self.kl = dict(cls=case['cls'], multi_array=len(case['arrays']) > 1)
+        self.permuted = False
+        self.nreorder = 0
+        self.last_edit = None
+        self.idx = None
+        self.h0 = case.get('h0', case['L'] * 0.1)
+
+    def fail(self, kind, detail):
+        self.fails.append(Failure(self.case['cls'], kind, detail, self.kl))
+        raise _Bail()
+
+    # -- state ----------------------------------------------------------
+    def snapshot(self):
+        out = []
+        for pa in self.pas:
+            out.append(dict(
+                recs=sorted(records(pa)[1]), names=sorted(pa.properties),
+                consts=constants(pa), nreal=pa.num_real_particles,
+                uid=pa.get_carray('uid').get_npy_array().copy()))
+        return out
+
+    def compare(self, snap, what):
+        import numpy as np
+        perm = False
+        for k, pa in enumerate(self.pas):
             names, recs = records(pa)
-            if sorted(recs) != before[k]:
-                fails.append(Failure(
-                    case['cls'], 'particles_changed',
-                    'array %d: multiset of whole-particle records changed '
-                    'after re-ordering round %d' % (k, rnd), kl))
-                return fails, labels, False
+            if names != snap[k]['names'] or sorted(recs) != snap[k]['recs']:
+                self.fail('particles_changed',
+                          'array %d: multiset of whole-particle records '
+                          'changed by %s (%d particles before, %d after)' % (
+                              k, what, len(snap[k]['recs']), len(recs)))
+            if constants(pa) != snap[k]['consts']:
+                self.fail('constants_changed',
+                          'array %d: constants changed by %s: %s -> %s' % (
+                              k, what, snap[k]['consts'], constants(pa)))
             tag = pa.get_carray('tag').get_npy_array()
             nr = pa.num_real_particles
-            if nr != nreal0[k] or (tag[:nr] != 0).any() or \
+            if nr != snap[k]['nreal'] or (tag[:nr] != 0).any() or \
                     (tag[nr:] == 0).any():
-                fails.append(Failure(
-                    case['cls'], 'real_not_first',
-                    'array %d: num_real_particles %d (was %d), non-local '
-                    'among the first slots: %d' % (
-                        k, nr, nreal0[k], int((tag[:nr] != 0).sum())), kl))
-                return fails, labels, False
-        # neighbours after the update
+                self.fail('real_not_first',
+                          'array %d after %s: num_real_particles %d (was '
+                          '%d), non-local among the first slots: %d' % (
+                              k, what, nr, snap[k]['nreal'],
+                              int((tag[:nr] != 0).sum())))
+            ua = pa.get_carray('uid').get_npy_array()
+            if not np.array_equal(ua, snap[k]['uid']):
+                perm = True
+        return perm
+
+    def neighbours(self, what):
+        from cyarray.carray import UIntArray
+        pas, nn = self.pas, self.nn
+        kind = 'neighbours_after_reorder' if self.nreorder else \
+            'neighbours_before_reorder'
         nbrs = UIntArray()
         for si in range(len(pas)):
             for di in range(len(pas)):
@@ -279,23 +408,314 @@ def check(case):
                 for i in range(0, nd, max(1, nd // 12)):
                     nn.get_nearest_particles(si, di, i, nbrs)
                     got = nbrs.get_npy_array()[:nbrs.length].tolist()
-                    req, forb = brute(pas, si, di, i, case['radius_scale'])
+                    req, forb = brute(pas, si, di, i,
+                                      self.case['radius_scale'])
                     g = set(got)
                     ns = pas[si].get_number_of_particles()
                     if len(g) != len(got) or any(j >= ns for j in got) or \
                             (req - g) or (g & forb):
-                        fails.append(Failure(
-                            case['cls'], 'neighbours_after_reorder',
-                            'src %d dst %d particle %d: missing %s, '
-                            'spurious %s, duplicates %d' % (
-                                si, di, i, sorted(req - g)[:5],
-                                sorted(g & forb)[:5], len(got) - len(g)),
-                            kl))
-                        return fails, labels, False
-    if permuted:
-        labels.append('permuted')
-    nontriv = permuted
-    return fails, labels, nontriv
+                        self.fail(kind,
+                                  '%s: src %d dst %d particle %d: missing '
+                                  '%s, spurious %s, duplicates %d' % (
+                                      what, si, di, i, sorted(req - g)[:5],
+                                      sorted(g & forb)[:5],
+                                      len(got) - len(g)))
+
+    # -- operations -------------------------------------------------------
+    def refresh(self):
+        self.nn.update_domain()
+        self.nn.update()
+
+    def order_one(self, k, reuse=False):
+        """get_spatially_ordered_indices + spatially_order_particles."""
+        import numpy as np
+        from cyarray.carray import LongArray
+        pa = self.pas[k]
+        n = pa.get_number_of_particles()
+        if reuse:
+            # one caller-owned index array used for call after call
+            if self.idx is None:
+                self.idx = LongArray()
+            elif self.idx.length:
+                self.labels.append('reused_index_array')
+            idx = self.idx
+        else:
+            idx = LongArray()
+        self.nn.get_spatially_ordered_indices(k, idx)
+        ind = idx.get_npy_array()[:idx.length].copy()
+        if sorted(ind.tolist()) != list(range(n)):
+            self.fail('not_a_permutation',
+                      'array %d (%d particles): index list has %d '
+                      'entries, %d distinct, min %s max %s' % (
+                          k, n, len(ind), len(set(ind.tolist())),
+                          ind.min() if len(ind) else None,
+                          ind.max() if len(ind) else None))
+        self.nn.spatially_order_particles(k)
+
+    def op_reorder(self, op):
+        snap = self.snapshot()
+        via = op['via']
+        if self.nreorder:
+            self.labels.append('repeat')
+        if self.last_edit:
+            self.labels.append('reorder_after:' + self.last_edit)
+        for pa in self.pas:
+            n = pa.get_number_of_particles()
+            if n == 0:
+                self.labels.append('reorder_empty_array')
+            elif n == 1:
+                self.labels.append('reorder_single_particle')
+            if n and pa.num_real_particles == 0:
+                self.labels.append('reorder_ghost_only_array')
+        if op.get('ctx'):
+            si, di = [c % len(self.pas) for c in op['ctx']]
+            self.nn.set_context(si, di)
+            if si != len(self.pas) - 1:
+                self.labels.append('context_not_last_array')
+        reuse = bool(op.get('reuse_idx'))
+        if via == 'solver':
+            self.labels.append('via_solver')
+            self.solver.reorder_particles()
+        elif via == 'one':
+            self.labels.append('reorder_one_array')
+            self.order_one(op['k'] % len(self.pas), reuse)
+            self.nn.update()
+        else:
+            for k in range(len(self.pas)):
+                self.order_one(k, reuse)
+            self.nn.update()
+        perm = self.compare(snap, 're-ordering (%s)' % via)
+        if perm:
+            self.permuted = True
+            if self.nreorder:
+                self.labels.append('permuted_later_round')
+        self.nreorder += 1
+        self.last_edit = None
+
+    def op_move(self, op):
+        import numpy as np
+        amp = op['amp'] * self.h0
+        for pa in self.pas:
+            uid = pa.get_carray('uid').get_npy_array()
+            for ax in range(self.case['dim']):
+                a = pa.get_carray('xyz'[ax]).get_npy_array()
+                a += amp * disp(uid, ax, op['p'], op.get('q', 0))
+        self.refresh()
+        self.last_edit = 'move'
+
+    def op_add(self, op):
+        import numpy as np
+        case = self.case
+        pa = self.pas[op['k'] % len(self.pas)]
+        m = len(op['pts'])
+        dim = case['dim']
+        p = np.zeros((m, 3))
+        p[:, :dim] = np.array(op['pts'], dtype=float).reshape(m, dim) \
+            / 256.0 * case['L'] + case['offset']
+        uid = np.arange(self.next_uid, self.next_uid + m)
+        self.next_uid += m
+        tag = np.zeros(m, dtype=np.int32)
+        if op.get('ntail'):
+            tag[m - op['ntail']:] = op['tail_tag']
+        props = dict(x=p[:, 0], y=p[:, 1], z=p[:, 2],
+                     h=np.full(m, self.h0 * op['hfac']), uid=uid,
+                     gid=uid.astype(np.uint32), tag=tag,
+                     f=(uid % 13 / 4.0).astype(np.float32),
+                     s3=np.repeat(uid, 3) * 0.5 + np.tile([0.0, 0.125, 0.25],
+                                                           m),
+                     i2=(np.repeat(uid, 2) * 2 + np.tile([0, 1], m)).astype(
+                         np.int32))
+        props.update(derived(uid))
+        if 'late2' in pa.properties:
+            props['late2'] = np.repeat(uid, 2) * 1.0 + np.tile([0.25, 0.75],
+                                                               m)
+        pa.add_particles(**props)
+        self.refresh()
+        self.labels.append('array_grown')
+        self.last_edit = 'add'
+
+    def op_remove(self, op):
+        import numpy as np
+        pa = self.pas[op['k'] % len(self.pas)]
+        n = pa.get_number_of_particles()
+        if op['sel'] == 'all':
+            idx = np.arange(n)
+        else:
+            nr = pa.num_real_particles
+            if nr == 0:
+                idx = np.arange(0)
+            else:
+                idx = np.array(sorted(set(s % nr for s in op['sel'])))
+        if len(idx):
+            pa.remove_particles(idx)
+            self.labels.append('array_shrunk')
+            if pa.get_number_of_particles() == 0 or \
+                    pa.num_real_particles == 0:
+                self.labels.append('array_emptied')
+        self.refresh()
+        self.last_edit = 'remove'
+
+    def op_hscale(self, op):
+        pa = self.pas[op['k'] % len(self.pas)]
+        uid = pa.get_carray('uid').get_npy_array()
+        h = pa.get_carray('h').get_npy_array()
+        h[uid % 2 == 0] *= op['fac']
+        self.refresh()
+        self.last_edit = 'hscale'
+
+    def op_lateprop(self, op):
+        import numpy as np
+        if self.case['periodic']:
+            return
+        pa = self.pas[op['k'] % len(self.pas)]
+        if 'late2' in pa.properties:
+            return
+        uid = pa.get_carray('uid').get_npy_array()
+        n = len(uid)
+        pa.add_property('late2', stride=2,
+                        data=np.repeat(uid, 2) * 1.0 + np.tile([0.25, 0.75],
+                                                               n))
+        self.last_edit = 'lateprop'
+
+    def op_solve(self, op):
+        """Solver.solve with a reorder frequency; the stand-in integrator
+        verifies the state it is handed at every step, then moves the
+        particles and refreshes the neighbour structure as integrators do."""
+        from pysph.solver.solver import Solver
+        run = self
+        state = dict(snap=self.snapshot(), step=0, perm=False)
+
+        def verify(what):
+            perm = run.compare(state['snap'], what)
+            if perm:
+                state['perm'] = True
+            run.nreorder += 1
+            run.neighbours(what)
+
+        class StandIn(object):
+            def initial_acceleration(self, t, dt):
+                verify('the re-ordering at the start of Solver.solve')
+
+            def step(self, t, dt):
+                if state['step']:
+                    verify('Solver.solve between steps %d and %d' % (
+                        state['step'], state['step'] + 1))
+                state['step'] += 1
+                run.op_move(dict(amp=op['amp'], p=op['p'],
+                                 q=state['step']))
+                state['snap'] = run.snapshot()
+
+            def compute_time_step(self, dt, cfl):
+                return None
+
+        dt = 0.125
+        solver = Solver(dim=self.case['dim'], integrator=StandIn(),
+                        tf=dt * op['nsteps'], dt=dt, pfreq=100000)
+        solver.particles = self.pas
+        solver.nnps = self.nn
+        solver.acceleration_evals = []
+        solver.dump_output = lambda: None
+        solver.set_reorder_freq(op['freq'])
+        self.labels.append('solve')
+        if self.case['periodic']:
+            self.labels.append('solve_periodic')
+        if self.last_edit:
+            self.labels.append('reorder_after:' + self.last_edit)
+        solver.solve(show_progress=False)
+        if state['step'] != op['nsteps']:
+            self.fail('solve_steps', 'stand-in integrator stepped %d times, '
+                      '%d expected' % (state['step'], op['nsteps']))
+        verify('Solver.solve after the last step')
+        if state['perm']:
+            self.labels.append('solve_permuted')
+            self.permuted = True
+        self.last_edit = None
+
+    # -- driver -----------------------------------------------------------
+    def run(self):
+        case = self.case
+        labels = self.labels
+        try:
+            self.pas, self.nn, self.next_uid = build(case)
+        except RuntimeError as ex:
+            if 'too many cells' in str(ex):
+                labels.append('capacity_rejected')
+                return
+            self.fails.append(Failure(case['cls'], 'construct_exception',
+                                      repr(ex), self.kl))
+            return
+        pas = self.pas
+        if len(pas) > 1:
+            labels.append('two_arrays')
+        if len(pas) > 2:
+            labels.append('three_arrays')
+        if case['periodic']:
+            labels.append('periodic_ghosts')
+        if any(a['ntail'] for a in case['arrays']):
+            labels.append('nonlocal_tail')
+            if case['periodic']:
+                labels.append('periodic_remote_tail')
+        labels.append('strided')
+        ns = [a['n'] for a in case['arrays']]
+        if 0 in ns:
+            labels.append('empty_array')
+        if not any(ns):
+            labels.append('all_empty')
+        if 1 in ns:
+            labels.append('single_particle')
+        if any(a['n'] and a['ntail'] == a['n'] for a in case['arrays']):
+            labels.append('ghost_only_array')
+        if any(a['family'] == 'coincident' and a['n'] > 1
+               for a in case['arrays']):
+            labels.append('coincident')
+        hs = [h for a in case['arrays'] for h in a['h']]
+        if hs and max(hs) >= 4 * min(hs):
+            labels.append('h_ratio_ge4')
+        if case.get('opts', {}).get('cache'):
+            labels.append('cache')
+        if case.get('opts', {}).get('sort_gids'):
+            labels.append('sort_gids')
+        if case.get('threads'):
+            labels.append('threads:%d' % case['threads'])
+        if case.get('knobs', {}).get('test_parallel'):
+            labels.append('test_parallel')
+        if case.get('consts') and any(ns):
+            labels.append('const_len_n')
+        prog = case.get('prog')
+        if prog is None:
+            prog = [dict(op='reorder',
+                         via='solver' if case['via_solver'] else 'nnps')
+                    for _ in range(case['rounds'])]
+        if any(op['op'] == 'reorder' and op['via'] == 'solver'
+               for op in prog):
+            from pysph.solver.solver import Solver
+            self.solver = Solver(dim=case['dim'], integrator=None)
+            self.solver.particles = pas
+            self.solver.nnps = self.nn
+        try:
+            for op in prog:
+                try:
+                    getattr(self, 'op_' + op['op'])(op)
+                except NotImplementedError:
+                    labels.append('unsupported')
+                    return
+                except RuntimeError as ex:
+                    if 'too many cells' in str(ex):
+                        labels.append('capacity_rejected')
+                        return
+                    raise
+                if op['op'] != 'lateprop':
+                    self.neighbours('after %s' % op['op'])
+        except _Bail:
+            return
+        if self.permuted:
+            labels.append('permuted')
+
+
+def check(case):
+    run = Run(case)
+    run.run()
+    return run.fails, run.labels, run.permuted and not run.fails
 
 
 def execute_factory(ctx):
